@@ -817,6 +817,7 @@ class Rewriter:
         b = self.sub('R22:slice-cloned-iter', r'\bother\.iter\(\)\.cloned\(\)', 'slice_cloned_iter(hs, other)', b)
         b = self.sub('R22:cloned-items', r'\biter\.into_iter\(\)\.cloned\(\)', 'iter.into_iter()', b)      # a copy of a token is the token
         b = self.sub('R22:slice-index', r'\b(?:Index::index|IndexMut::index_mut)\(&(?:mut )?\*\*self, index\)', 'slice_index(hs, self.deref(hs), index)', b)
+        b = self.sub('R22:slice-eq', r'\bself\[\.\.\] == other\[\.\.\]', 'slice_eq(hs, self.deref(hs), other.deref(hs))', b)
         b = self.sub('R22:slice-hash', r'\bHash::hash\(&\*\*self, (\w+)\)', r'slice_hash(hs, self.as_slice(), \1, hl)', b)
         b = self.sub('R22:slice-cloned-iter', r'\bself\.iter\(\)\.cloned\(\)', 'slice_cloned_iter(hs, self.as_slice())', b)
         b = self.sub('R22:model-type', r'(?<![\w:])Vec::new_in\(', 'VecM::new_in(hs, ', b)
